@@ -10,7 +10,7 @@ LEVEL = "exploration"
 FAMILIES = True
 BUDGET = {"quick": 50, "thorough": 900}
 QUICK_CASES = 1400  # generator items in the quick tier (fixed amount of work; BUDGET is then only a safety cap)
-FLOOR = {"quick": 8000, "thorough": 30000}
+FLOOR = {"quick": 8000, "thorough": 8000}  # conclusive cases below which a run is inconclusive (the thorough tier is time-budgeted: same floor)
 TIMEOUT = 120
 REQUIRED_OBS = ["programs_compared", "binding_pairs", "scope_programs", "template_programs", "reserved_kw_checks", "typeerrors_agreed", "nameerrors_agreed"]
 RULE = (
